@@ -739,6 +739,23 @@ def prof_malformed(rng, n, tier):
             h.ops.append("loadord %d %d 0 %d %s" % (r, h.nt, h.kind, order)); h.nt += 1
             out.append(h)
             continue
+        if i % 5 == 2:
+            # structural damage of a binary-format top node (with and without children): the last links removed (some
+            # stay), empty links appended, values removed - every decodable slice, but the counts no longer fit each
+            # other, so the root must be rejected (judged by the oracle's own decoder: nomodel)
+            h = H("mal%d" % i, rng, cache="none", fmt="bin", kind=rng.choice([0, 1, 2]), bfs=[2, 3, 4], opts={"nomodel": 1})
+            t = h.new(store=3)
+            build_tree(h, t, rng.choice([3, 12, 40, 90]))
+            r = h.mkroot(t)
+            x = h.load(r, store=3)
+            h.ops.append("iter %d" % x)                  # intact: loads
+            h.ops.append("corrupt 3 %d %s %d" % (r, rng.choice(["droplink", "droplink", "addlink", "dropvalue"]), rng.choice([1, 1, 2, 3])))
+            y = h.nt; h.nt += 1
+            h.ops.append("load %d %d 3 %d" % (r, y, h.kind)); h.ref[y] = None
+            h.ops.append("iter %d" % y)
+            h.tags.add("corrupt")
+            out.append(h)
+            continue
         h = H("mal%d" % i, rng, cache=rng.choice(["none", "big"]), kind=rng.choice([0, 0, 1, 2, 5]))
         t = h.new()
         build_tree(h, t, rng.choice([0, 1, 2, 5, 15, 40]))
